@@ -85,11 +85,15 @@ def _schema_dir():
 
 def schema_text(name, case):
     lines = ["===%s===" % name, "META:", "  TYPE::PROTOCOL_DEFINITION", '  VERSION::"1.0"', ""]
+    tgt = case.get("tgt", "field")
     if case["policy"] != "NONE":
-        lines += ["POLICY:", '  VERSION::"1.0"', "  UNKNOWN_FIELDS::%s" % case["policy"], "  TARGETS::[§SELF]", ""]
+        lines += ["POLICY:", '  VERSION::"1.0"', "  UNKNOWN_FIELDS::%s" % case["policy"], "  TARGETS::[§SELF,§INDEXER]"]
+        if tgt == "default":
+            lines.append("  DEFAULT_TARGET::§INDEXER")
+        lines.append("")
     lines.append("FIELDS:")
     for f in sorted(case["fields"]):
-        lines.append('  %s::["example"&%s->§SELF]' % (f, case["chains"][f]))
+        lines.append('  %s::["example"&%s%s]' % (f, case["chains"][f], "->§SELF" if tgt == "field" else ""))
     lines += ["===END===", ""]
     return "\n".join(lines)
 
@@ -117,7 +121,7 @@ def instance_text(name, case):
 
 
 def schema_name(case):
-    return "GEN_%s_%s" % ("".join(sorted(f[0] for f in case["fields"])), case["policy"])
+    return "GEN_%s_%s%s" % ("".join(sorted(f[0] for f in case["fields"])), case["policy"], {"field": "", "default": "_DT", "none": "_NT"}[case.get("tgt", "field")])
 
 
 def field_of(path, name):
